@@ -86,6 +86,8 @@ def printable(s):
 # ---------------------------------------------------------------------------------------------- one history, run twice
 def mask(text, w):
     text = text.replace(w.eng.path, '<db>') if w.eng is not None else text
+    for d in w.scratch:
+        text = text.replace(d, '<tmp>')
     text = re.sub(r'0x[0-9a-fA-F]{6,}', '0x?', text)
     return text
 
